@@ -88,7 +88,7 @@ CHECKS = {
 HIST_NOTE = " A shared history stage (DESIGN 3.6) additionally applies long random sequences of API calls to long-lived, near-twin key objects of all three parameter sets in one thread and compares every step with the stateless reference; this check judges the kind of step that belongs to its property."
 for _p in ("C01", "C02", "C03", "C04", "C07", "C09", "C10", "C11"):
     CHECKS[_p]["text"] += HIST_NOTE
-for _p in ("C10", "C12", "C13"):
+for _p in ("C02", "C03", "C10", "C12", "C13", "C16"):
     CHECKS[_p]["text"] += " The workload runs on two flavours of the harness: linked with the crate as users build it (feature dudect off) and linked with feature dudect on."
 
 ALL = [f"C{i:02d}" for i in range(1, 19)]
